@@ -7,15 +7,19 @@ ID = "C07"
 LEVEL = "proof"
 TRUSTED = dc.TRUSTED
 ASSUMPTIONS = ["DATA-reader part; BDAT and whole-conversation cuts are tied by the conv probe"]
-RULE = ("dr probe: every cut point 0..len of every terminated stream over {'.',CR,LF,'a'} up to the tier's length "
+RULE = ("conv probe: every octet offset at which the client stream of 6 conversations (DATA, BDAT, LMTP, LMTP+BDAT, marker payload, AUTH+DATA) can be cut, backends propagating reader errors; dr probe: every cut point 0..len of every terminated stream over {'.',CR,LF,'a'} up to the tier's length "
         "(source ends with EOF or a scripted error), with and without size limit, 3 read schedules; random streams cut "
         "at random points. non-trivial = the cut stream is non-empty and contains '.', CR or LF")
 THEOREMS = ["C07_data_cut", "C07_eof_complete", "data_monitor_accepts_model"]
-nontrivial = lambda case, ans: dc.nontrivial_stream(case)
-signature = dc.signature
-mutate = dc.mutate
-shrink = dc.shrink
+nontrivial = lambda case, ans: dc.nontrivial_stream(case) if case.startswith('dr') else cc.nontrivial(case, ans)
+signature = lambda case, ans: dc.signature(case, ans) if case.startswith('dr') else cc.signature(case, ans)
+mutate = lambda case, rng: dc.mutate(case, rng) if case.startswith('dr') else []
+shrink = lambda case: dc.shrink(case) if case.startswith('dr') else P.shrink_resegment(case)
 KNOWN = {}
+
+
+from vlib.props import convprops as P, convcommon as cc
+_proj = lambda case, ans: cc.project(ans, codes="class", enh=False, drecs="full")
 
 
 def groups(tier, rng):
@@ -36,7 +40,8 @@ def groups(tier, rng):
                               cuts(len(c), rng, rng.choice(["one", "rand"])),
                               sched(rng.choice(["all", 1, 3, "mixed"]), len(c), rng), rng.choice(["eof", "err"])))
     return [Group("dr/every-cut", enum, theorems=THEOREMS),
-            Group("dr/random-cuts", rnd, theorems=THEOREMS)]
+            Group("dr/random-cuts", rnd, theorems=THEOREMS),
+            Group("conv/every-cut", P.cut_convs(tier, rng), project=_proj, theorems=THEOREMS)]
 
 
 def replay_groups(path):
